@@ -14,7 +14,9 @@ LEXEMES = [";", "{", "}", "(", ")", "[", "]", "=", "==", "+", "-", "*", "/", "%"
            # an encoding prefix directly followed by the *other* quote, number prefixes: spellings that start a literal
            "L'", "l'", "u'", "U'", "u8'", 'L"', 'u8"', "0x", "0b", "1e", ".5", "<%", "%:",
            # question marks: alone they are text; two of them start a trigraph only with one of nine third characters
-           "??", "???", "??a", "a??", "?"]
+           "??", "???", "??a", "a??", "?",
+           # accented letters: one displayed column each, several bytes in UTF-8
+           "\u00e9", "\u00fc\u00e9", "\u00e0x\u00e7"]
 TRIGRAPHS = ("??=", "??(", "??/", "??)", "??'", "??<", "??!", "??>", "??-")
 
 
